@@ -297,4 +297,4 @@ def _obligations():
 
 
 def obligations():
-    return _obligations() + [labels_obligation("C07"), effects_obligation("C07")]
+    return _obligations() + [labels_obligation("C07"), selectors_obligation("C07"), effects_obligation("C07")]
